@@ -23,17 +23,60 @@ package dhcp
 
 //@ type Pool
 //@   owns mu: allocated available unavailable
+//@   inv nonnil: self.allocated != nil && self.unavailable != nil
+//@   inv avdist: forall i int, j int :: 0 <= i && i < j && j < len(self.available) ==> ipkey(self.available[i]) != ipkey(self.available[j])
+//@   inv avfree: forall i int, m string :: 0 <= i && i < len(self.available) && m in self.allocated ==> ipkey(self.available[i]) != ipkey(self.allocated[m])
+//@   inv inj: forall m string, n string :: m in self.allocated && n in self.allocated && m != n ==> ipkey(self.allocated[m]) != ipkey(self.allocated[n])
+//@   inv quar: forall i int :: 0 <= i && i < len(self.available) ==> ipstr(self.available[i]) !in self.unavailable
 
 //@ type PoolManager
 //@   owns poolsMu: pools defaultPoolID
 
+// ---- pool.go: address ownership in the local pool (C02) ----
+//
+// ipkey(x) is the identity of x's net.IP.Equal class, ipstr(x) = x.String().
+// The lock invariants say: the free list holds pairwise different addresses
+// (avdist), none of which is held by a client (avfree) or quarantined after a
+// DECLINE (quar), and no two clients hold the same address (inj).
+
+//@ func (p *Pool) Allocate
+//@   modifies p.allocated, p.available
+//@   ensures err == nil ==> macstr(mac) in p.allocated && p.allocated[macstr(mac)] == result
+//@   ensures err == nil ==> forall m string :: m in p.allocated && m != macstr(mac) ==> ipkey(p.allocated[m]) != ipkey(result)
+//@   ensures forall m string :: m != macstr(mac) ==> (m in p.allocated) == locked(m in p.allocated) && p.allocated[m] == locked(p.allocated[m])
+//@   ensures locked(macstr(mac) in p.allocated) ==> err == nil && result == locked(p.allocated[macstr(mac)]) && p.available == locked(p.available)
+//@   ensures !locked(macstr(mac) in p.allocated) && err == nil ==> locked(len(p.available)) > 0 && result == locked(p.available[0]) && ipstr(result) !in p.unavailable
+//@   ensures !locked(macstr(mac) in p.allocated) && err == nil ==> forall i int :: 0 <= i && i < len(p.available) ==> ipkey(p.available[i]) != ipkey(result)
+//@   ensures err != nil ==> locked(len(p.available)) == 0 && !locked(macstr(mac) in p.allocated) && macstr(mac) !in p.allocated && p.available == locked(p.available)
+
 //@ func (p *Pool) Release
-//@   modifies p.allocated, p.available, p.unavailable
+//@   modifies p.allocated, p.available
 //@   sets relPool = relPool + 1
+//@   ensures forall m string :: m in p.allocated ==> locked(m in p.allocated) && p.allocated[m] == locked(p.allocated[m]) && ipkey(p.allocated[m]) != ipkey(ip)
+//@   ensures forall m string :: locked(m in p.allocated) && ipkey(locked(p.allocated[m])) != ipkey(ip) ==> m in p.allocated
+//@   ensures (exists m string :: locked(m in p.allocated) && ipkey(locked(p.allocated[m])) == ipkey(ip)) && ipstr(ip) !in p.unavailable ==> exists i int :: 0 <= i && i < len(p.available) && ipkey(p.available[i]) == ipkey(ip)
+
+//@ loop Pool.Release#1
+//@   invariant p.nonnil && p.avdist && p.avfree && p.inj && p.quar
+//@   invariant dom(p.allocated) == locked(dom(p.allocated)) && vals(p.allocated) == locked(vals(p.allocated))
+//@   invariant p.available == locked(p.available) && elems(p.available) == locked(elems(p.available))
+//@   invariant forall m string :: m in visited ==> ipkey(p.allocated[m]) != ipkey(ip)
 
 //@ func (p *Pool) MarkUnavailable
-//@   modifies p.allocated, p.available, p.unavailable
+//@   modifies p.available, p.unavailable
 //@   sets markedUnavailable = markedUnavailable + 1
+//@   ensures ipstr(ip) in p.unavailable
+//@   ensures forall s string :: locked(s in p.unavailable) ==> s in p.unavailable
+//@   ensures forall i int :: 0 <= i && i < len(p.available) ==> ipkey(p.available[i]) != ipkey(ip)
+//@   ensures dom(p.allocated) == locked(dom(p.allocated)) && vals(p.allocated) == locked(vals(p.allocated))
+
+//@ loop Pool.MarkUnavailable#1
+//@   invariant p.nonnil && p.avdist && p.avfree && p.inj
+//@   invariant p.available == locked(p.available) && elems(p.available) == locked(elems(p.available))
+//@   invariant ipstr(ip) in p.unavailable
+//@   invariant forall s string :: locked(s in p.unavailable) ==> s in p.unavailable
+//@   invariant forall k int :: 0 <= k && k < len(p.available) && ipstr(p.available[k]) in p.unavailable ==> ipkey(p.available[k]) == ipkey(ip)
+//@   invariant forall k int :: 0 <= k && k < i ==> ipkey(p.available[k]) != ipkey(ip)
 
 //@ func (m *PoolManager) GetPool
 //@   modifies m.pools, m.defaultPoolID
@@ -86,3 +129,42 @@ package dhcp
 // every lease collected as expired (and removed from the table in the same critical section) is torn down
 //@ loop Server.cleanupExpiredLeases#2
 //@   invariant relSessions == ridx && relQuarantined == 0
+
+// ---- server.go: the ACK gate of DHCPREQUEST (C02) ----
+//
+// "A server never acknowledges an address that is leased or offered to a
+// different client": the ACK path of handleRequest (the only place that
+// increments acksTotal) is reachable only if the client's own lease carries the
+// requested address, or the pool holds the requested address for this client's
+// MAC (IsAllocatedTo under the pool mutex; by Pool.inj nobody else holds it),
+// or addresses are managed by Nexus (out of scope here). The lease table and the
+// pool are protected by different mutexes; that they stay in agreement between
+// the check and the insertion is not decided (see DESIGN.md).
+
+//@ func (p *Pool) IsAllocatedTo
+//@   modifies p.allocated, p.available, p.unavailable
+//@   ensures result == (locked(macstr(mac) in p.allocated) && ipkey(locked(p.allocated[macstr(mac)])) == ipkey(ip))
+//@   ensures dom(p.allocated) == locked(dom(p.allocated)) && vals(p.allocated) == locked(vals(p.allocated)) && p.available == locked(p.available)
+//@   sets poolOwner = ite(result, 1, 0)
+
+//@ func parseOption82
+//@   modifies nothing
+
+//@ func (s *Server) lookupLeaseByCircuitID
+//@   modifies s.leasesByCircuitID
+
+//@ func (s *Server) buildNAK
+//@   modifies nothing
+
+//@ func (s *Server) updateFastPathCache
+//@   modifies nothing
+
+//@ func (m *PoolManager) ClassifyClient
+//@   modifies m.pools, m.defaultPoolID
+
+//@ functype Server.onCircuitIDCollision()
+//@   modifies nothing
+
+//@ func (s *Server) handleRequest
+//@   ghost poolOwner int = 0
+//@   ensures s.acksTotal == old(s.acksTotal) + 1 ==> (existingLease != nil && ipkey(existingLease.IP) == ipkey(requestedIP)) || poolOwner == 1 || old(s.httpAllocator != nil && s.httpAllocatorPool != "")
